@@ -174,20 +174,15 @@ theorem fe_readEnv : ∀ name args pos skip tol mode ts, 3 * ts.length + 3 ≤ f
       · rw [if_pos ht] at h; cases h
       · rw [if_neg ht] at h; cases h
     · rw [if_neg herr] at h
-      cases hs : (readSpacer (ts1.drop 2)).2 with
-      | nil => rw [hs] at h; cases h
-      | cons o r3 =>
-        rw [hs] at h
+      cases ts1 with
+      | nil => cases h
+      | cons t1 r1 =>
         simp only at h
-        have l1 := ((s1.drop 2).trans_ssuf (Suf.afterSpacer hs)).length_lt
-        cases hk : gkindOfBegin o.cat with
-        | none => rw [hk] at h; cases h
-        | some k =>
-          rw [hk] at h
-          simp only at h
-          rcases Res.bind_eq_error.mp h with h | ⟨x, ts2, ha, h⟩
-          · exact eA _ _ _ _ _ (by omega) h
-          · cases h
+        have l1 := s1.length_le
+        simp only [List.length_cons] at l1
+        rcases Res.bind_eq_error.mp h with h | ⟨x, ts2, ha, h⟩
+        · exact eC _ _ _ _ _ (by omega) h
+        · cases h
 
 theorem fe_readEnvBody : ∀ skip tol mode ts, 3 * ts.length + 2 ≤ f + 1 →
     readEnvBody (f+1) skip tol mode ts ≠ .error .fuel := by
